@@ -26,7 +26,7 @@ PLAN = {
     "C01": dict(
         title="Backpropagated gradients are the true derivatives of the objective",
         level="proof",
-        verus=["C01_conv_backward.rs", "C01_deconv_backward.rs", "C01_maxpool_backward.rs", "C07_activations.rs", "C16_skip_backward.rs", "C02_dense.rs", "C01_feedback_backward.rs", "C01_backward_glue.rs", "C15_hadamard3d.rs"],
+        verus=["C01_conv_backward.rs", "C01_deconv_backward.rs", "C01_maxpool_backward.rs", "C07_activations.rs", "C16_skip_backward.rs", "C02_dense.rs", "C01_feedback_backward.rs", "C01_backward_glue.rs", "C15_hadamard3d.rs", "C07_linear.rs"],
         kani=True,
         native_checks=[("network.gradient", "bounded native grid: backward() against exact step-1 difference quotients on 5 architectures mixing dense / convolution / deconvolution and flat<->spatial transitions (integer data, linear activations)"),
                        ("dense.linear.backward", "bounded native grid: Dense::backward of a linear layer: input gradient W^T g, weight gradient g x^T, bias gradient g iff the layer has a bias, on every rows x cols up to 5 x 5 (non-square included), integer data (exact)")],
@@ -107,7 +107,7 @@ PLAN = {
     "C07": dict(
         title="Activations: defined function, exact derivative, total on finite floats",
         level="proof",
-        verus=["C07_activations.rs", "C07_activation_whole.rs", "C07_softmax.rs"],
+        verus=["C07_activations.rs", "C07_activation_whole.rs", "C07_linear.rs", "C07_softmax.rs"],
         kani=True,
         native_checks=[("activation.elementwise", "bounded native grid: forward and backward of ReLU / LeakyReLU / Sigmoid / Tanh / Linear on flat tensors of length 1..5 and 3-D tensors of every extent triple up to 3 (non-square included): output shape and nesting = input's, every cell = the definition applied to the input cell at the same nested index (bit-exact)")],
         undecided_clauses=[
@@ -324,7 +324,8 @@ MANIFEST_TEXT = {
              "proves, for any element of any shape, that both rank copies of each forward/backward closure compute one documented formula "
              "(backward = textbook derivative of forward), and - units *.forward.whole / *.backward.whole (R56) - that the WHOLE forward and backward of ReLU, LeakyReLU, "
              "Sigmoid and Tanh return, for a flat tensor of any length and a 3-D tensor of any size, a tensor of the same rank and nesting lengths whose every element is that "
-             "formula of the input element at the same position, with the shape field the code reports (other ranks panic: outside the stated domain). Soft-max is bounded in vector length.",
+             "formula of the input element at the same position, with the shape field the code reports (other ranks panic: outside the stated domain); Linear::forward returns its input and Linear::backward a tensor of the input's shape "
+             "whose every entry is 1.0 (units linear.*.whole on the WHOLE Tensor::ones, unit tensor.ones, R60). Soft-max is bounded in vector length.",
         note="libm contracts (F2) assumed; F1 uninterpreted floats in Verus; derivative table is mathematics (F3); iterator chains "
              "covered for every size in Verus (R56: extend-map -> index loop) and for singleton/small shapes in Kani; soft-max: the formula (shifted exponentials over their in-order sum) is proved for every length in Verus (unit softmax.forward), its value claims are bounded (n = 2); shift invariance under rounding undecided.",
     ),
